@@ -306,8 +306,9 @@ s.exc("TypeError", "unhashable-id", ("C05",), lambda c, A, R: z3.And(z3.Not(c.ha
 s = std(contract(SCQ + "remove_simplex_ids_from", [("self", "net:SC"), ("ebunch", "val")]))
 s.loop("for idx in ebunch", lambda c, A, K: [
     G("lite", ("C03",), SLite(c, K.S)), G("closed", ("C03",), SClosed(c, K.S)), G("fresh", ("C03", "C04"), Fresh(c, K.S)),
-    G("frame", ("C05",), only_removed(c, K.S, A.S0))])
+    G("frame", ("C05",), only_removed(c, K.S, A.S0)), G("frozen", ("C18",), z3.Implies(A.S0.frozen, same_tables(c, A.S0, K.S)))])
 s.ens_all("only-removes", ("C05",), lambda c, A, R: only_removed(c, R.S, A.S0))
+s.ens_all("frozen-unchanged", ("C18",), lambda c, A, R: z3.Implies(A.S0.frozen, same_tables(c, A.S0, R.S)))
 s.exc("XGIError")
 s.exc("TypeError")
 
@@ -373,6 +374,7 @@ for nm, params in [("remove_edge", [("self", "net:SC"), ("idx", "val")]), ("remo
     s = std(contract(SCQ + nm, params))
     for e_ in ("XGIError", "TypeError", "IDNotFound"):
         s.exc(e_)
+    s.ens_all("frozen-unchanged", ("C18",), lambda c, A, R: z3.Implies(A.S0.frozen, same_tables(c, A.S0, R.S)))
 
 s = contract(SCQ + "add_node_to_edge", [("self", "net:SC"), ("edge", "val"), ("node", "val")])
 s.exc("XGIError", "always", ("C03", "C05"), lambda c, A, R: same_state(c, A.S0, R.S))
@@ -484,3 +486,48 @@ s.ens_all("existing-kept", ("C04",), lambda c, A, R: only_added(c, R.S, A.S0))
 s.ens("max-order", ("C03",), lambda c, A, R: within_max_order(c, R.S, A.S0, A.max_order.term))
 for e_ in ("XGIError", "TypeError", "ValueError", "IndexError", "UnboundLocalError"):
     s.exc(e_)
+
+
+# ------------------------------------------------------------------ remaining public mutators of a complex (composition of the contracts above)
+from contracts.freeze import frozen_clauses  # noqa: E402
+
+s = std(contract(SCQ + "close", [("self", "net:SC")]), closed=False)
+s.req("Closed", lambda c, A: SClosed(c, A.S0), ("C03",))
+s.ens("Closed", ("C03",), lambda c, A, R: SClosed(c, R.S))
+def _close_loop(c, A, K):
+    from contracts.freeze import IsFrozen
+    return [G("lite", ("C03",), SLite(c, K.S)), G("closed", ("C03",), SClosed(c, K.S)),
+            G("fresh", ("C03", "C04"), z3.And(Fresh(c, K.S), only_added(c, K.S, A.S0))),
+            G("frozen", ("C18",), z3.Implies(IsFrozen(c, A.S0), same_tables(c, A.S0, K.S)))]
+
+
+s.loop("for simplex in ebunch_to_close", _close_loop)
+s.ens_all("existing-kept", ("C04",), lambda c, A, R: only_added(c, R.S, A.S0))
+s.raises_any = True
+frozen_clauses(s)
+
+s = std(contract(SCQ + "add_weighted_simplices_from", [("self", "net:SC"), ("ebunch_to_add", "val"), ("max_order", "val", None), ("weight", "val", "weight"), ("attr", "kwattr")]), closed=False)
+s.req("Closed", lambda c, A: SClosed(c, A.S0), ("C03",))
+s.req("max_order-int-or-none", lambda c, A: z3.Or(A.max_order.term == c.NONE, c.is_int(A.max_order.term)), ("C03",))
+s.ens("Closed", ("C03",), lambda c, A, R: SClosed(c, R.S))
+s.ens_all("existing-kept", ("C04",), lambda c, A, R: only_added(c, R.S, A.S0))
+s.raises_any = True
+frozen_clauses(s)
+
+for nm, params in [("add_edges_from", [("self", "net:SC"), ("ebunch_to_add", "val"), ("max_order", "val", None), ("attr", "kwattr")]),
+                   ("add_weighted_edges_from", [("self", "net:SC"), ("ebunch_to_add", "val"), ("max_order", "val", None), ("weight", "val", "weight"), ("attr", "kwattr")])]:
+    s = std(contract(SCQ + nm, params), closed=False)
+    s.req("Closed", lambda c, A: SClosed(c, A.S0), ("C03",))
+    s.req("max_order-int-or-none", lambda c, A: z3.Or(A.max_order.term == c.NONE, c.is_int(A.max_order.term)), ("C03",))
+    s.ens("Closed", ("C03",), lambda c, A, R: SClosed(c, R.S))
+    s.ens_all("existing-kept", ("C04",), lambda c, A, R: only_added(c, R.S, A.S0))
+    s.raises_any = True
+    frozen_clauses(s)
+
+s = std(contract(SCQ + "cleanup", [("self", "net:SC"), ("isolates", "bool", False), ("connected", "bool", True), ("relabel", "bool", True), ("in_place", "bool", True)]), closed=False)
+s.req("in-place-no-relabel-no-component", lambda c, A: z3.And(A.in_place.term, z3.Not(A.relabel.term), z3.Not(A.connected.term)), ("C03",))
+s.req("Closed", lambda c, A: SClosed(c, A.S0), ("C03",))
+s.ens("Closed", ("C03",), lambda c, A, R: SClosed(c, R.S))
+s.raises_any = True
+s.notes = "only the isolates step is covered (in_place=True, connected=False, relabel=False); the component / relabelling steps on a complex are bounded"
+frozen_clauses(s)
